@@ -137,12 +137,14 @@ func dayLeaf(c *Ctx, recv ssa.Value, env *dayEnv) leafX {
 			if strings.HasPrefix(f, "Solar.") {
 				if d, ok := dayOf(fr, rc); ok {
 					switch f {
+					// the components of a moment are opaque: they can be compared like with like and handed to a
+					// constructor together, not calculated with (a day number minus one is not the day before)
 					case "Solar.year":
-						return int64(9000), true
+						return absOpaque{"year of a moment", 9000}, true
 					case "Solar.month":
-						return int64(9), true
+						return absOpaque{"month of a moment", 9}, true
 					case "Solar.day":
-						return d.k, true // the marker: the day number itself
+						return absOpaque{"day of a moment", d.k}, true // the marker: the day number itself
 					default:
 						if d.timed {
 							env.problems["the time of day of a moment is consulted ("+f+")"] = true
@@ -264,9 +266,14 @@ func dayLeaf(c *Ctx, recv ssa.Value, env *dayEnv) leafX {
 				}
 				return nil, false
 			case callee.Name() == "NewSolarFromYmd" && callee.Signature.Recv() == nil && len(args) == 3:
-				y, ok1 := intArg(0)
-				m, ok2 := intArg(1)
-				d, ok3 := intArg(2)
+				mark := func(i int, kind string) (int64, bool) {
+					o, ok := evalWith(fr, args[i], leaf)
+					m, isM := o.(absOpaque)
+					return m.k, ok && isM && m.kind == kind
+				}
+				y, ok1 := mark(0, "year of a moment")
+				m, ok2 := mark(1, "month of a moment")
+				d, ok3 := mark(2, "day of a moment")
 				if ok1 && ok2 && ok3 && y == 9000 && m == 9 {
 					return absDay{d, false}, true
 				}
